@@ -296,7 +296,9 @@ class DefaultWorker(Worker):
                 else:
                     out, err, ret, val, exc = dispatcher(task)
 
-            except Exception as e:
+            except (Exception, SystemExit) as e:
+                # a payload calling `sys.exit()` must still report a result,
+                # otherwise the request is never answered nor deallocated
                 exc = [repr(e), '\n'.join(ru.get_exception_trace())]
 
             finally:
